@@ -105,6 +105,17 @@ def run(ctx):
         script = [{"kind": "finalize", "nth": 1, "fault": fault, "repeat": 1}] if fault else []
         specs.append(flowcheck.prepare(dict(tag="C07/x%03d" % len(specs), certs=[cert], attempts=2, hooks=hooks, endpoints={"A": {"script": script}},
                                             meta={"family": "post-operation hook that is also a file hook", "fault": fault})))
+    # problem documents with a long human-readable detail in any language (RFC 7807: "detail" is free text): the attempt fails and is
+    # reported like any other, whatever the length and the letters
+    letters = [("é", 600), ("é", 1100), ("日", 1100), ("日", 3000), ("😀", 1500), ("a", 3000), ("ю", 2100), ("é", 5000)]
+    if ctx.tier != "thorough":
+        letters = letters[:5]
+    for letter, nb in letters:
+        for kind in ("newOrder", "finalize", "challenge"):
+            # four attempts, so four different leads
+            specs.append(flowcheck.prepare(dict(tag="C07/d%03d" % len(specs), certs=[cert], attempts=4,
+                                                endpoints={"A": {"ca": {"detail_style": [letter, nb]}, "script": [{"kind": kind, "nth": 1, "fault": "acme:unauthorized:403", "repeat": 10 ** 6}]}},
+                                                meta={"family": "long error text", "letter": letter, "bytes": nb, "kind": kind})))
     specs += hook_exit_specs(ctx.tier, ctx.seed)
     specs += fault_and_hook_specs(ctx.tier, ctx.seed, pos)
     specs += multi_cert_specs(ctx.tier, ctx.seed)
